@@ -22,7 +22,11 @@ RULE = ('nucleotide (DNA/RNA/IUPAC) and protein sequences of 0-60 columns (thoro
         'HISTORIES (400 quick / 4000 thorough): 3-7 steps on 1-3 long-lived BioSeq objects (equal texts, equal ids, equal lengths on purpose): '
         'calls with varying start/rf/gap, the same call repeated, calls on a fresh object with the same text, in-place edits between '
         'calls (reverse, rc, data assignment, item assignment, str.replace), mutation of the returned BioMatchList, baskets holding one '
-        'object twice; every call step is compared with the model and the oracle on the current text')
+        'object twice; every call step is compared with the model and the oracle on the current text. '
+        'REGEX LAYER (1500 quick / 20000 thorough + fixed list x short sequences): random pattern trees (letters, ".", classes, negated classes, groups, * + ?, alternation; no quantifier inside a quantified group) '
+        'and the codon regexes users write (A[TU]G, (ATG), AT+G, T(?:AA|AG|GA), ATG(?:...)*(TAA|TAG|TGA), ...) on the same sequences, rf forms incl. bool / float / object(), all gap settings, entry points '
+        'match/matchall/baskets/groupby("rf"); SHORT TAILS (300): sequences or tails behind the start offset shorter than the pattern text; BioMatch.span directly on re.Match objects with any rf / lenseq (60). '
+        'The oracle for regexes is CPython re on the pattern the docstring promises (gap class between each two neighbouring letters, computed on a flat token stream) with frames from residue counts')
 TRUSTED = ['CPython re (sre) for the codon-alternation patterns of DESIGN 5.5: modelled by a hand-written backtracking matcher '
            '(ordered alternation, greedy "[gap]*", leftmost non-overlapping finditer) and compared on every case',
            'CPython bisect.bisect_left on an ascending list (modelled as the number of leading elements < i)',
@@ -1306,28 +1310,32 @@ def extra_checks(rng, tier, cov):
     cov['relational_checks'] = done
 
 
-LEVEL_TEXT = ('Machine-checked Coq theorems (30, all closed under the global context) over an executable model of cane.match / BioMatch.span / '
-              'BioSeq and BioBasket match/matchall: every reported match has its span inside the sequence at a column >= start, its group is '
+LEVEL_TEXT = ('Machine-checked Coq theorems (41, all closed under the global context) over an executable model of cane.match / BioMatch.span / '
+              'BioMatchList.groupby / BioSeq and BioBasket match/matchall. Word patterns (start, stop, "|"-separated words over letters and "."): every reported match has its span inside the sequence at a column >= start, its group is '
               'the text of the span (backward: of the span on the reverse complement = reversed per-character complement of the mirrored forward '
               'span), the group is an occurrence of a word of the pattern with gap characters tolerated between letters (degapped group = word '
               'for words without "."), the frame is a requested one, in 0..2 forward / -3..-1 backward, and equals the number of residues '
               'between the start offset and the match modulo 3 (bisect over gap positions = gap count, proved for all inputs; backward count '
               'also expressed on the forward strand); output is forward matches then backward matches, spans ascending and disjoint, nothing '
               'requested is lost, match() = first element of matchall() or None, baskets concatenate; the hand-written backtracking word matcher '
-              'is proved sound and complete w.r.t. a declarative relation, finditer leftmost-complete, and for plain prefix-free words without proper overlap (start, stop) every occurrence is reported exactly once; ordered alternation reports the first word that occurs; no word occurs outside the reported spans; span bounds; the start offset in forward coordinates for backward frames; empty results; rf forms count only through membership; basket wrappers element-wise. The model is tied to sugar and to '
-              'CPython re by differential testing on every run plus a first-principles oracle on degapped strands. The gap argument is a '
-              'character SET throughout (model, relation irel, residues, theorems): "[gap]*" is the class of the characters of the gap string and '
+              'is proved sound and complete w.r.t. a declarative relation, finditer leftmost-complete, and for plain prefix-free words without proper overlap (start, stop) every occurrence is reported exactly once; ordered alternation reports the first word that occurs; no word occurs outside the reported spans; span bounds; the start offset in forward coordinates for backward frames; empty results; rf forms count only through membership; basket wrappers element-wise. '
+              'The gap argument is a character SET throughout (model, relation irel, residues, theorems): "[gap]*" is the class of the characters of the gap string and '
               '"nt in gap" is membership; the backward-count theorem uses a regenerated-table fact for the gap symbols "-", ".", "~". '
-              'Round 7 (model only so far, compared on every run, theorems follow): coq/model/C13_Rx.v models simple regexes as a syntax tree (literals, ".", classes and negated classes, '
-              'concatenation, ordered alternation, greedy * + ? on consuming atoms, capturing and non-capturing groups) with a backtracking matcher, the gap rewriting '
-              'both on the pattern text (as the code does) and on the tree, BioMatch.span, BioMatchList.groupby("rf") and the rf argument as a total decision '
-              'table with error classes (AssertionError for other strings, TypeError for non-iterables, bool = int).')
+              'Round 7, the pattern language (coq/model/C13_Rx.v, 11 theorems): simple regexes are syntax trees (literal characters, ".", classes and negated classes over letters, '
+              'concatenation, ordered alternation, greedy * + ? on atoms that consume, capturing and non-capturing groups; the pattern must not match the empty string) with a printer to the pattern text and a backtracking matcher with CPython priorities. '
+              'rx_rewrite_text_is_tree: the character-level gap rewriting of cane.py:217-222 applied to the text of a tree is the text of the tree-level rewriting (gap class between two neighbours of a concatenation that end / begin with a letter or "."), for all trees whose classes have no two neighbouring letters; '
+              'rx_matcher_sound (only prefixes in the language of the pattern are reported); rx_gap_meaning (what the rewritten pattern matches is, degapped, matched by the original pattern, for patterns without ".", negated classes and gap characters; what the original matches is still matched), unbounded, by induction over trees and derivations; '
+              'rx_matchall_sound (span, text, language membership, requested frame = residue count mod 3, both strands, for every tree), rx_order, rx_match_is_head (for any matcher), words_are_an_instance (the word model is the instance "ordered alternation of compiled words" of the generic pipeline); '
+              'span_mirror (BioMatch.span mirroring is an involution that keeps bounds and length); groupby_partition (groupby("rf"): keys = distinct frames in first-occurrence order, groups = order-preserving sub-lists, none empty, every match in its group); '
+              'rf_decision_table (None / int / bool / fwd,bwd,both / other strings -> AssertionError / collections / non-iterables -> TypeError) and rf_strands. '
+              'The models are tied to sugar and to CPython re by differential testing on every run (the regex layer also on the pattern text handed to re, observed through BioMatch.re.pattern) plus first-principles oracles.')
 LEVEL_NOTE = ('Trusted: Coq kernel/vm_compute, tools/gen_data.py (COMPLEMENT tables, via the C05 model), the correspondence harness, CPython re/bisect/'
-              'deepcopy. Modelled rather than verified: cane.match, BioMatch.span, BioSeq/BioBasket match(all). Domain: printable-ASCII upper-case '
-              'sequences, patterns start/stop/"|"-separated words over ASCII letters and ".", start >= 0, gap None or a string over "-", ".", "~" with "-" only first or last (class metacharacters "]", "^", backslash and ranges are outside). '
+              'deepcopy. Modelled rather than verified: cane.match, BioMatch.span, BioMatchList.groupby (one key), BioSeq/BioBasket match(all). Domain: printable-ASCII upper-case '
+              'sequences; word patterns start/stop/"|"-separated words over ASCII letters and "."; regex trees as described in coq/model/C13_Rx.v (rx_ok: no anchors, no {m,n}, no lazy quantifiers, no ranges or escapes, quantified atoms must consume, pattern not nullable; the harness sends tree and text, the model checks that its printer gives the text); start >= 0; gap None or a string over "-", ".", "~" with "-" only first or last (class metacharacters "]", "^", backslash and ranges are outside). '
+              'PENDING FIX class_gap (build/pending_fixes/C13_class_gap.diff): with gap set (the default) the rewriting tears a class of two neighbouring letters apart ("A[TU]G" -> "A[T[-]*U]G", matches nothing); such calls are outside the domain (cls_gap_ok), with gap=None they are inside. '
               'The frame theorem is at full strength (no guard) since the dot_on_gap fix 69fc7dc (bisect_left); the former witnesses '
-              'are in corpus/C13/dot_on_gap.json. Tested only (differential + first-principles oracle, not proved): equivalence of the hand-written '
-              'matcher with CPython re (word matcher and regex-tree matcher), the regex layer as a whole (no theorem yet), a BioSeq given as the pattern (cane.py:209-210, compared through its upper-cased text), independence '
-              'of earlier calls / shared objects / in-place edits (400 histories per quick run; the model is pure). Statement coverage of the '
-              'modelled functions in the quick tier: 81/81, no unreachable lines. No axioms.')
+              'are in corpus/C13/dot_on_gap.json. Tested only (differential + first-principles oracle, not proved): equivalence of the two hand-written '
+              'matchers with CPython re (completeness of the regex-tree matcher is not proved, soundness is), that CPython parses the printed text as the tree, a BioSeq given as the pattern (cane.py:209-210, compared through its upper-cased text), independence '
+              'of earlier calls / shared objects / in-place edits (400 histories per quick run; the model is pure), groupby with other keys than "rf". rx_gap_meaning is one inclusion plus monotonicity: gap characters are tolerated only between neighbouring letters of the text, not inside a repetition ("AT+G" does not match "AT-TG"), which the theorem does not hide. Statement coverage of the '
+              'modelled functions in the quick tier: see evidence. No axioms.')
 TECHNIQUE = 'Coq proof over an executable model + differential correspondence with /repo on every run'
